@@ -462,8 +462,9 @@ Init ==
      \E x \in (IF kind = "none" THEN {NF} ELSE s..(s + n - 1)),
         fy \in {NF} \cup (s..(s + n - 1)),
         ck \in {NF} \cup (s..(s + n - 1)), cx \in {0, 1},
-        rsrc \in {"none", "B", "F"}, rkind \in {"none", "eof", "io"} :
-     \E rk \in (IF rsrc = "none" THEN {NF} ELSE s..(s + n - 1)) :
+        rsrc \in (IF hB = hF /\ fk = "none" THEN {"none", "B", "F"} ELSE {"none"}) :
+     \E rkind \in (IF rsrc = "none" THEN {"none"} ELSE {"eof", "io"}),
+        rk \in (IF rsrc = "none" THEN {NF} ELSE (Max2(hB + 1, s))..(s + n - 1)) :
        /\ s + n - 1 <= MaxH
        /\ cfg = [s |-> s, n |-> n, bs |-> bs, hB |-> hB, hF |-> hF,
                  x |-> x, kind |-> kind, fy |-> fy, fk |-> fk, ck |-> ck, cx |-> cx,
